@@ -226,4 +226,43 @@ theorem normal_ok_nonexc (t : FTy) (bits : Nat) (h0 : 0 < bits) (hfin : bits < (
       (hcle hc) (by omega)
     simpa using hmem
 
+/-- the two binary32 floats whose centre-integrality flag is wrong, evaluated: the flag is not consulted on them -/
+theorem exc_eval : dragonboxOk .f32 585281266 = true ∧ dragonboxOk .f32 593669874 = true := by decide +kernel
+
+theorem exc_ok (t : FTy) (bits : Nat) (hfin : bits < (fmtOf t).infBits)
+    (hexc : (t.exponent bits, t.mantissa bits) ∈ excFloats t) : dragonboxOk t bits = true := by
+  cases t
+  · obtain ⟨hm, he, _⟩ := fields32 bits
+    have hfin' : bits < 255 * 2 ^ 23 := hfin
+    have hlt : bits / 2 ^ 23 < 255 := by omega
+    have hmod : bits / 2 ^ 23 % 2 ^ 8 = bits / 2 ^ 23 := Nat.mod_eq_of_lt (by omega)
+    rw [hmod] at hm he
+    have hx : (FTy.f32.exponent bits, FTy.f32.mantissa bits) = (-81, 14855922)
+        ∨ (FTy.f32.exponent bits, FTy.f32.mantissa bits) = (-80, 14855922) := by
+      simpa [excFloats] using hexc
+    rcases hx with hx | hx
+    · obtain ⟨h1, h2⟩ := Prod.mk.inj hx
+      rw [he] at h1; rw [hm] at h2
+      have : bits = 585281266 := by
+        split at h1
+        · omega
+        · rename_i hne; rw [if_neg hne] at h2; omega
+      rw [this]; exact exc_eval.1
+    · obtain ⟨h1, h2⟩ := Prod.mk.inj hx
+      rw [he] at h1; rw [hm] at h2
+      have : bits = 593669874 := by
+        split at h1
+        · omega
+        · rename_i hne; rw [if_neg hne] at h2; omega
+      rw [this]; exact exc_eval.2
+  · simp [excFloats] at hexc
+
+/-- **`compute_nearest_normal` is correct**: every finite non-zero float with a non-zero mantissa field — all normal and
+subnormal binary32 and binary64 inputs of the branch — is written as a pair of `Spec.shortest` -/
+theorem normal_ok (t : FTy) (bits : Nat) (h0 : 0 < bits) (hfin : bits < (fmtOf t).infBits)
+    (hm : bits &&& t.mantissaMask ≠ 0) : dragonboxOk t bits = true := by
+  by_cases hexc : (t.exponent bits, t.mantissa bits) ∈ excFloats t
+  · exact exc_ok t bits hfin hexc
+  · exact normal_ok_nonexc t bits h0 hfin hm hexc
+
 end LexVerif.Proof.DragonboxNormalSpec
